@@ -125,9 +125,9 @@ PROPS = {
                            'The strictness of the boundary comparison (< vs <=) at the nanosecond is not distinguishable by the harness (real clock).',
                 level_note=LEVEL_NOTE),
     'C03': dict(level='proof', module='EscProofs.P.C03',
-                streams=dict(quick=[('scenario', ['-dir', '@ROOT/corpus/C03']), ('hist', ['-n', 400, '-scans', 10]), ('hist', ['-n', 200, '-scans', 10, '-focus', 'autodisc'])],
-                             thorough=[('scenario', ['-dir', '@ROOT/corpus/C03']), ('hist', ['-n', 20000, '-scans', 12]), ('hist', ['-n', 10000, '-scans', 12, '-focus', 'autodisc'])],
-                             search=[('hist', ['-n', 1500, '-scans', 12]), ('hist', ['-n', 1500, '-scans', 12, '-focus', 'autodisc'])]),
+                streams=dict(quick=[('scenario', ['-dir', '@ROOT/corpus/C03']), ('hist', ['-n', 400, '-scans', 10]), ('hist', ['-n', 200, '-scans', 10, '-focus', 'autodisc']), ('hist', ['-n', 200, '-scans', 10, '-focus', 'restore'])],
+                             thorough=[('scenario', ['-dir', '@ROOT/corpus/C03']), ('hist', ['-n', 20000, '-scans', 12]), ('hist', ['-n', 10000, '-scans', 12, '-focus', 'autodisc']), ('hist', ['-n', 10000, '-scans', 12, '-focus', 'restore'])],
+                             search=[('hist', ['-n', 1500, '-scans', 12]), ('hist', ['-n', 1500, '-scans', 12, '-focus', 'autodisc']), ('hist', ['-n', 1500, '-scans', 12, '-focus', 'restore'])]),
                 aspects=['hist:taintadds', 'hist:untaints'], monitors=['C03'],
                 theorems=['Esc.P.C03_floor', 'Esc.P.C03_below_min', 'Esc.P.C03_history'],
                 technique='Lean 4 theorem (journal shape + counting lemma for the taint loop) + differential correspondence and runtime monitor',
@@ -211,7 +211,11 @@ PROPS = {
                 level_text='C10_protected / C10_history: every removal call is backed by a node that is not protected (non-empty annotation, no force taint), for all ages and emptiness, along all histories; '
                            'classification and capacity ignore annotations; candidates are computed node by node (no hold-back). Tie: hist correspondence on removal calls + monitor.',
                 level_note=LEVEL_NOTE),
-    'C11': dict(level='proof', module='EscProofs.P.C11', streams=hist('C11', focus='dry'),
+    'C11': dict(level='proof', module='EscProofs.P.C11',
+                # the last stream of each tier: the credentials refresh fails and the provider is rebuilt under a dry group (5 s of real sleep each)
+                streams=dict(quick=[('scenario', ['-dir', '@ROOT/corpus/C11']), ('hist', ['-n', 400, '-scans', 10, '-focus', 'dry']), ('hist', ['-n', 5, '-scans', 6, '-focus', 'dry', '-slow'])],
+                             thorough=[('scenario', ['-dir', '@ROOT/corpus/C11']), ('hist', ['-n', 20000, '-scans', 12, '-focus', 'dry']), ('hist', ['-n', 60, '-scans', 6, '-focus', 'dry', '-slow'])],
+                             search=[('hist', ['-n', 1500, '-scans', 12, '-focus', 'dry']), ('hist', ['-n', 12, '-scans', 6, '-focus', 'dry', '-slow'])]),
                 aspects=['hist:drywrites'], monitors=['C11'],
                 theorems=['Esc.P.C11_scan', 'Esc.P.C11_history', 'Esc.P.C11_reading'],
                 technique='Lean 4 theorem (journal anatomy: with either dry switch every entry is a read) + differential correspondence and runtime monitor',
@@ -254,9 +258,12 @@ PROPS = {
                            '<= terminateBatchSize ids, and success is reported only when nothing was terminated; C18_no_lock: a failed increase leaves the scale lock untouched. Tie: fleetops stream (real provider, 1 s ticker, fleets up to 2500, failure sequences up to the third strike) + monitor; controller level: fleet-mode histories with the monitor "a cool-down starts only in a scan in which the cloud accepted an increase".',
                 level_note=LEVEL_NOTE),
     'C19': dict(level='proof', module='EscProofs.P.C19',
-                streams=dict(quick=[('scenario', ['-dir', '@ROOT/corpus/C19']), ('awsops', ['-n', 3000]), ('hist', ['-n', 300, '-scans', 10])],
-                             thorough=[('scenario', ['-dir', '@ROOT/corpus/C19']), ('awsops', ['-n', 200000]), ('hist', ['-n', 15000, '-scans', 12])],
-                             search=[('awsops', ['-n', 20000]), ('hist', ['-n', 1500, '-scans', 12])]),
+                # churn: nodes come due, instances arrive, the cloud group's bounds move; with -slow the provider is rebuilt in between (5 s of real sleep each)
+                streams=dict(quick=[('scenario', ['-dir', '@ROOT/corpus/C19']), ('awsops', ['-n', 3000]), ('hist', ['-n', 300, '-scans', 10]), ('hist', ['-n', 150, '-scans', 10, '-focus', 'churn']),
+                                    ('hist', ['-n', 5, '-scans', 7, '-focus', 'churn', '-slow'])],
+                             thorough=[('scenario', ['-dir', '@ROOT/corpus/C19']), ('awsops', ['-n', 200000]), ('hist', ['-n', 15000, '-scans', 12]), ('hist', ['-n', 8000, '-scans', 12, '-focus', 'churn']),
+                                       ('hist', ['-n', 60, '-scans', 8, '-focus', 'churn', '-slow'])],
+                             search=[('awsops', ['-n', 20000]), ('hist', ['-n', 1500, '-scans', 12]), ('hist', ['-n', 1000, '-scans', 12, '-focus', 'churn']), ('hist', ['-n', 12, '-scans', 8, '-focus', 'churn', '-slow'])]),
                 aspects=['journal', 'outcome', 'cached-desired', 'hist:removals', 'hist:outcome'], monitors=['C19'],
                 theorems=['Esc.P.C19_delete', 'Esc.P.C19_count', 'Esc.P.C19_refuse', 'Esc.P.C19_k8s_after_cloud', 'Esc.P.C19_scan_batches',
                           'Esc.P.C19_not_member_scan', 'Esc.P.C19_not_member_fatal'],
@@ -304,9 +311,9 @@ PROPS = {
                            'Tie: filters stream enumerates exhaustively the small-scope universe (7 selectors x ~190 affinity shapes x 5 owner sets x 4 annotation sets = 141,820 pods, 9 label maps) through the real filter functions; at controller level, after every scan of the multi-group histories the harness asks each group\'s own lister objects what they return and the driver compares that with viewOf (names of pods and nodes): a disagreement names the mis-attributed pod or node.',
                 level_note=LEVEL_NOTE, exhaustive=True),
     'C15': dict(level='proof', module='EscProofs.P.C15',
-                streams=dict(quick=[('taintops', ['-n', 4000]), ('hist', ['-n', 300, '-scans', 10])],
-                             thorough=[('taintops', ['-n', 100000]), ('hist', ['-n', 15000, '-scans', 12])],
-                             search=[('taintops', ['-n', 20000]), ('hist', ['-n', 1500, '-scans', 12])]),
+                streams=dict(quick=[('taintops', ['-n', 4000]), ('hist', ['-n', 300, '-scans', 10]), ('hist', ['-n', 200, '-scans', 10, '-focus', 'down'])],
+                             thorough=[('taintops', ['-n', 100000]), ('hist', ['-n', 15000, '-scans', 12]), ('hist', ['-n', 10000, '-scans', 12, '-focus', 'down'])],
+                             search=[('taintops', ['-n', 20000]), ('hist', ['-n', 1500, '-scans', 12]), ('hist', ['-n', 1500, '-scans', 12, '-focus', 'down'])]),
                 aspects=['journal', 'ok', 'time', 'age', 'panic', 'hist:updates'], monitors=['C15'],
                 theorems=['Esc.P.C15_add', 'Esc.P.C15_add_idempotent', 'Esc.P.C15_delete', 'Esc.P.C15_no_restamp', 'Esc.P.C15_history',
                           'Esc.P.swapRemoveFirst_perm', 'Esc.P.C15_precise_add', 'Esc.P.C15_precise_delete'],
